@@ -240,14 +240,12 @@ class C11(Prop):
         shared = owned_copy & others
         if shared:
             raise Violation("the copy shares %d owned blocks (nodes, strings or keys) with a live tree" % len(shared), key="shared-memory")
-        arena_ptrs = set(p for p, _ in w.arena)
-        for p in lib.const_keys(cp.ptr):
-            if p not in arena_ptrs:
-                raise Violation("a key flagged constant in the copy does not point at the caller's constant", key="const-key")
+        # (constant keys: the copy MAY share them by pointer - "only constant keys remain shared"; whether it does, copies them, or
+        # drops the stale ones of array elements is open.  What the flag means is checked for every live tree by check_all:
+        # a flagged name is never a block of the library's allocator, an unflagged one always is.)
+        if lib.tree_name_flag_conflicts(cp.ptr):
+            raise Violation("a name in the copy carries a constant-key flag that contradicts where the name lives", key="const-key")
         if recurse:
-            want_const = sorted(w.arena[y.key_ptr][0] for y in self.subnodes(w, src) if y.key_const and y.key is not None and y.key_ptr is not None)
-            if sorted(lib.const_keys(cp.ptr)) != want_const:
-                raise Violation("constant keys of the source are not shared by pointer in the copy", key="const-key")
             view = w.to_jv(src)
             keyless = any(n[0] == "O" and any(k == b"" for k, _ in n[1]) for n in model.walk_jv(view)) and w.keyless_member(cp)
             distinct = all(len(set(k for k, _ in n[1])) == len(n[1]) for n in model.walk_jv(view) if n[0] == "O")
